@@ -181,6 +181,7 @@ class DiisResetWatch:
         self.calls = 0
         self.events = []       # events of the current call
         self.seen = 0          # times the probed line executed (all calls)
+        self.cum_innocent = {}  # row -> number of resets applied on behalf of other rows, over all calls since clear_cum()
 
     def _on_start(self):
         self.calls += 1
@@ -200,6 +201,11 @@ class DiisResetWatch:
                 trig = [r for r, b in zip(rows, flags) if b]
                 inno = [r for r, b in zip(rows, flags) if not b]
                 self.events.append({"k": int(loc.get("k", -1)), "trigger_rows": trig, "innocent_rows": inno})
+                for r in inno:
+                    self.cum_innocent[r] = self.cum_innocent.get(r, 0) + 1
+
+    def clear_cum(self):
+        self.cum_innocent = {}
 
     def innocent_resets(self, row):
         return sum(1 for e in self.events if row in e["innocent_rows"])
